@@ -12,7 +12,15 @@ long nondet_long(void);
 static inline int qsv_nondet_payload(void)
 { int v = nondet_int(); __CPROVER_assume(v > -QSV_PAYLOAD_MAX && v < QSV_PAYLOAD_MAX); return v; }
 #else
+/* native replay: named inputs by name; anonymous nondet_*() calls pop the recorded sequence */
 long qsv_in(const char *name);
-static inline int qsv_nondet_payload(void) { return (int) qsv_in("@payload"); }
+long qsv_next(void);
+static inline int nondet_int(void) { return (int) qsv_next(); }
+static inline unsigned nondet_uint(void) { return (unsigned) qsv_next(); }
+static inline char nondet_char(void) { return (char) qsv_next(); }
+static inline _Bool nondet_bool(void) { return qsv_next() != 0; }
+static inline long nondet_long(void) { return qsv_next(); }
+static inline double nondet_double(void) { return (double) qsv_next(); }
+static inline int qsv_nondet_payload(void) { return (int) qsv_next(); }
 #endif
 #endif
